@@ -1,14 +1,33 @@
 package main
 
-// Structural model of the text codecs (encoding/json, yaml.v2).
+// Structural model of encoding/json (and, for the CLI harnesses, yaml.v2).
+//
+// Marshal(v) yields the JSON value tree J obtained by following encoding/json's
+// rules on the engine value; if J is fully concrete it is rendered into concrete
+// bytes (leaves through the real encoding/json), otherwise it stays an opaque
+// token Tok(J) inside the string. Unmarshal accepts concrete text (decoded by the
+// real encoding/json) or blanks around exactly one token.
+//
+// Axioms encoded (properties of encoding/json, validated by the self-test, not
+// proved): Marshal is injective on value trees; Unmarshal∘Marshal is the identity
+// on them (finite numbers, valid UTF-8 strings); a token is a single line and is
+// self-delimiting.
 
 import (
+	"bytes"
+	"encoding/base64"
+	"encoding/json"
 	"fmt"
+	"go/types"
 	"math"
+	"reflect"
+	"sort"
 	"strconv"
+	"strings"
+
+	"golang.org/x/tools/go/ssa"
 )
 
-// Tok is an opaque piece of text: the encoding of a JSON value tree.
 type Tok struct {
 	val    *JVal
 	yaml   bool
@@ -16,13 +35,42 @@ type Tok struct {
 }
 
 type JVal struct {
-	kind  byte // 'n' null, 'b' bool, 'f' number, 's' string, 'a' array, 'o' object
-	b     *Term
-	f     *Term
-	s     Str
-	arr   []*JVal
-	keys  []string
-	vals  []*JVal
+	kind byte // 'n' null, 'b' bool, 'f' number, 's' string, 'a' array, 'o' object
+	b    *Term
+	f    *Term // FP term
+	s    Str
+	arr  []*JVal
+	keys []string
+	vals []*JVal
+}
+
+func (j *JVal) concrete() bool {
+	switch j.kind {
+	case 'n':
+		return true
+	case 'b':
+		return j.b.IsConst()
+	case 'f':
+		return j.f.IsConst()
+	case 's':
+		_, ok := j.s.concrete()
+		return ok
+	case 'a':
+		for _, e := range j.arr {
+			if !e.concrete() {
+				return false
+			}
+		}
+		return true
+	case 'o':
+		for _, e := range j.vals {
+			if !e.concrete() {
+				return false
+			}
+		}
+		return true
+	}
+	return false
 }
 
 func (in *Interp) tokLen(t *Tok) *Term {
@@ -37,11 +85,660 @@ func (in *Interp) tokLen(t *Tok) *Term {
 	return t.lenVar
 }
 
-func (in *Interp) ropeEq(x, y Str) *Term {
-	panic(unsupported("rope equality"))
+// ---------- rendering ----------
+
+func marshalLeaf(x interface{}) string {
+	b, err := json.Marshal(x)
+	if err != nil {
+		panic(unsupported("json.Marshal leaf: " + err.Error()))
+	}
+	return string(b)
 }
 
-func (e *Engine) registerCodecModels() {}
+// renderJ renders a value tree under a model (nil model: tree must be concrete).
+func (in *Interp) renderJ(j *JVal, m Model, sb *strings.Builder) {
+	ev := func(t *Term) uint64 {
+		if t.IsConst() {
+			return t.val
+		}
+		v, ok := t.Eval(m)
+		if !ok {
+			panic("renderJ: cannot evaluate")
+		}
+		return v
+	}
+	switch j.kind {
+	case 'n':
+		sb.WriteString("null")
+	case 'b':
+		if ev(j.b) == 1 {
+			sb.WriteString("true")
+		} else {
+			sb.WriteString("false")
+		}
+	case 'f':
+		f := math.Float64frombits(ev(j.f))
+		sb.WriteString(marshalLeaf(f))
+	case 's':
+		bs := make([]byte, len(j.s.elems))
+		for i, e := range j.s.elems {
+			bs[i] = byte(ev(e.b))
+		}
+		sb.WriteString(marshalLeaf(string(bs)))
+	case 'a':
+		sb.WriteString("[")
+		for i, e := range j.arr {
+			if i > 0 {
+				sb.WriteString(",")
+			}
+			in.renderJ(e, m, sb)
+		}
+		sb.WriteString("]")
+	case 'o':
+		sb.WriteString("{")
+		for i, e := range j.vals {
+			if i > 0 {
+				sb.WriteString(",")
+			}
+			sb.WriteString(marshalLeaf(j.keys[i]))
+			sb.WriteString(":")
+			in.renderJ(e, m, sb)
+		}
+		sb.WriteString("}")
+	}
+}
+
+func (in *Interp) renderTok(t *Tok, m Model) string {
+	var sb strings.Builder
+	if t.yaml {
+		return in.renderYamlJ(t.val, m)
+	}
+	in.renderJ(t.val, m, &sb)
+	return sb.String()
+}
+
+// strOfJ: concrete text or a token.
+func (in *Interp) strOfJ(j *JVal) Str {
+	if j.concrete() {
+		var sb strings.Builder
+		in.renderJ(j, nil, &sb)
+		return in.strConst(sb.String())
+	}
+	return Str{elems: []SElem{{tok: &Tok{val: j}}}}
+}
+
+// ---------- value -> tree (Marshal) ----------
+
+type marshalErr struct{ msg string }
+
+func (in *Interp) hasMethod(t types.Type, name string) *ssa.Function {
+	ms := in.prog.MethodSets.MethodSet(t)
+	for i := 0; i < ms.Len(); i++ {
+		if ms.At(i).Obj().Name() == name {
+			return in.prog.MethodValue(ms.At(i))
+		}
+	}
+	return nil
+}
+
+func (in *Interp) jvalOf(v Value, t types.Type) *JVal {
+	tt := in.tt
+	if iv, ok := v.(Iface); ok {
+		if _, isI := t.Underlying().(*types.Interface); isI {
+			if iv.t == nil {
+				return &JVal{kind: 'n'}
+			}
+			return in.jvalOf(iv.v, iv.t)
+		}
+	}
+	if _, isNamed := t.(*types.Named); isNamed {
+		if f := in.hasMethod(t, "MarshalJSON"); f != nil {
+			if p, isPtr := v.(Ptr); isPtr && p.p == nil {
+				return &JVal{kind: 'n'}
+			}
+			r := in.callFunction(f, []Value{v}, nil).(Tuple)
+			if e := r[1].(Iface); e.t != nil {
+				panic(marshalErr{"MarshalJSON error"})
+			}
+			s := Str{elems: elemsOfBytes(r[0].(Slice))}
+			return in.parseRope(s)
+		}
+	}
+	switch u := t.Underlying().(type) {
+	case *types.Basic:
+		x := v
+		switch {
+		case u.Info()&types.IsBoolean != 0:
+			return &JVal{kind: 'b', b: x.(*Term)}
+		case u.Info()&types.IsFloat != 0:
+			f := x.(*Term)
+			if f.IsConst() {
+				fv := fpc(f)
+				if math.IsNaN(fv) || math.IsInf(fv, 0) {
+					panic(marshalErr{"unsupported value"})
+				}
+			} else if !in.finiteKnown(f) {
+				panic(unsupported("json.Marshal of float not known finite"))
+			}
+			return &JVal{kind: 'f', f: f}
+		case u.Info()&types.IsInteger != 0:
+			it := x.(*Term)
+			if !it.IsConst() {
+				in.requireSmallInt(it)
+			}
+			if u.Info()&types.IsUnsigned != 0 {
+				return &JVal{kind: 'f', f: tt.FpOfSInt(tt.Zext(it, 64))}
+			}
+			return &JVal{kind: 'f', f: tt.FpOfSInt(tt.Sext(it, 64))}
+		case u.Info()&types.IsString != 0:
+			s := x.(Str)
+			if s.hasTok() {
+				panic(unsupported("json.Marshal of a string holding a token"))
+			}
+			return &JVal{kind: 's', s: s}
+		}
+	case *types.Slice:
+		s := v.(Slice)
+		if s.v == nil {
+			return &JVal{kind: 'n'}
+		}
+		if eb, ok := u.Elem().Underlying().(*types.Basic); ok && eb.Kind() == types.Uint8 {
+			bs := make([]byte, len(s.v))
+			for i, e := range s.v {
+				t, ok := e.(*Term)
+				if !ok || !t.IsConst() {
+					panic(unsupported("json.Marshal of symbolic []byte"))
+				}
+				bs[i] = byte(t.val)
+			}
+			return &JVal{kind: 's', s: in.strConst(base64.StdEncoding.EncodeToString(bs))}
+		}
+		j := &JVal{kind: 'a', arr: make([]*JVal, len(s.v))}
+		for i, e := range s.v {
+			j.arr[i] = in.jvalOf(e, u.Elem())
+		}
+		return j
+	case *types.Array:
+		a := v.(Array)
+		j := &JVal{kind: 'a', arr: make([]*JVal, len(a))}
+		for i, e := range a {
+			j.arr[i] = in.jvalOf(e, u.Elem())
+		}
+		return j
+	case *types.Map:
+		m := v.(MapRef)
+		if m.m == nil {
+			return &JVal{kind: 'n'}
+		}
+		type kv struct {
+			k string
+			v Value
+		}
+		var kvs []kv
+		for _, e := range m.m.ents {
+			ks, ok := e.k.(Str)
+			if !ok {
+				panic(unsupported("json.Marshal of map with non-string keys"))
+			}
+			c, ok := ks.concrete()
+			if !ok {
+				panic(unsupported("json.Marshal of map with symbolic keys"))
+			}
+			kvs = append(kvs, kv{c, e.v})
+		}
+		sort.Slice(kvs, func(i, j int) bool { return kvs[i].k < kvs[j].k })
+		j := &JVal{kind: 'o'}
+		for _, e := range kvs {
+			j.keys = append(j.keys, e.k)
+			j.vals = append(j.vals, in.jvalOf(e.v, u.Elem()))
+		}
+		return j
+	case *types.Struct:
+		st := v.(Struct)
+		j := &JVal{kind: 'o'}
+		for i := 0; i < u.NumFields(); i++ {
+			f := u.Field(i)
+			if !f.Exported() {
+				continue
+			}
+			name := f.Name()
+			tag := reflect.StructTag(u.Tag(i)).Get("json")
+			if tag == "-" {
+				continue
+			}
+			if tag != "" {
+				parts := strings.Split(tag, ",")
+				if parts[0] != "" {
+					name = parts[0]
+				}
+				if len(parts) > 1 {
+					panic(unsupported("json struct tag options"))
+				}
+			}
+			j.keys = append(j.keys, name)
+			j.vals = append(j.vals, in.jvalOf(st[i], f.Type()))
+		}
+		return j
+	case *types.Pointer:
+		p := v.(Ptr)
+		if p.p == nil {
+			return &JVal{kind: 'n'}
+		}
+		return in.jvalOf(*p.p, u.Elem())
+	case *types.Interface:
+		iv := v.(Iface)
+		if iv.t == nil {
+			return &JVal{kind: 'n'}
+		}
+		return in.jvalOf(iv.v, iv.t)
+	}
+	panic(unsupported("json.Marshal of " + typeString(t)))
+}
+
+// parseRope turns JSON text (concrete, or blanks around one token) into a tree.
+func (in *Interp) parseRope(s Str) *JVal {
+	j, err := in.parseRopeErr(s)
+	if err != "" {
+		panic(marshalErr{err})
+	}
+	return j
+}
+
+func isBlank(e SElem) bool {
+	if e.tok != nil || !e.b.IsConst() {
+		return false
+	}
+	switch byte(e.b.val) {
+	case ' ', '\t', '\n', '\r':
+		return true
+	}
+	return false
+}
+
+func (in *Interp) parseRopeErr(s Str) (*JVal, string) {
+	if c, ok := s.concrete(); ok {
+		dec := json.NewDecoder(strings.NewReader(c))
+		var x interface{}
+		if err := json.Unmarshal([]byte(c), &x); err != nil {
+			return nil, err.Error()
+		}
+		_ = dec
+		return in.jvalOfNative(x), ""
+	}
+	es := s.elems
+	for len(es) > 0 && isBlank(es[0]) {
+		es = es[1:]
+	}
+	for len(es) > 0 && isBlank(es[len(es)-1]) {
+		es = es[:len(es)-1]
+	}
+	if len(es) == 1 && es[0].tok != nil {
+		if es[0].tok.yaml {
+			panic(unsupported("JSON decode of YAML token"))
+		}
+		return es[0].tok.val, ""
+	}
+	panic(unsupported("decoding text that mixes bytes and tokens: " + s.String()))
+}
+
+func (in *Interp) jvalOfNative(x interface{}) *JVal {
+	switch x := x.(type) {
+	case nil:
+		return &JVal{kind: 'n'}
+	case bool:
+		return &JVal{kind: 'b', b: in.tt.Bool(x)}
+	case float64:
+		return &JVal{kind: 'f', f: in.tt.FPConst(x)}
+	case int:
+		return &JVal{kind: 'f', f: in.tt.FPConst(float64(x))}
+	case string:
+		return &JVal{kind: 's', s: in.strConst(x)}
+	case []interface{}:
+		j := &JVal{kind: 'a', arr: make([]*JVal, len(x))}
+		for i, e := range x {
+			j.arr[i] = in.jvalOfNative(e)
+		}
+		return j
+	case map[string]interface{}:
+		ks := make([]string, 0, len(x))
+		for k := range x {
+			ks = append(ks, k)
+		}
+		sort.Strings(ks)
+		j := &JVal{kind: 'o'}
+		for _, k := range ks {
+			j.keys = append(j.keys, k)
+			j.vals = append(j.vals, in.jvalOfNative(x[k]))
+		}
+		return j
+	}
+	panic(fmt.Sprintf("jvalOfNative %T", x))
+}
+
+// ---------- tree -> value (Unmarshal) ----------
+
+var (
+	tEmptyIface = types.NewInterfaceType(nil, nil)
+	tMapSI      = types.NewMap(types.Typ[types.String], tEmptyIface)
+	tSliceI     = types.NewSlice(tEmptyIface)
+)
+
+func init() { tEmptyIface.Complete() }
+
+// decodeInto mirrors encoding/json's decoding of tree j into a value of type t.
+// cur is the current value (Unmarshal merges into existing maps / keeps fields).
+func (in *Interp) decodeInto(j *JVal, t types.Type, cur Value, errp *string) Value {
+	tt := in.tt
+	typeErr := func(what string) {
+		if *errp == "" {
+			*errp = "json: cannot unmarshal " + what + " into Go value of type " + typeString(t)
+		}
+	}
+	jname := map[byte]string{'n': "null", 'b': "bool", 'f': "number", 's': "string", 'a': "array", 'o': "object"}[j.kind]
+	if _, isNamed := t.(*types.Named); isNamed {
+		if in.hasMethod(types.NewPointer(t), "UnmarshalJSON") != nil {
+			panic(unsupported("json.Unmarshal into type with UnmarshalJSON: " + typeString(t)))
+		}
+	}
+	switch u := t.Underlying().(type) {
+	case *types.Interface:
+		if u.NumMethods() != 0 {
+			if j.kind == 'n' {
+				return Iface{}
+			}
+			typeErr(jname)
+			return cur
+		}
+		switch j.kind {
+		case 'n':
+			return Iface{}
+		case 'b':
+			return Iface{t: types.Typ[types.Bool], v: j.b}
+		case 'f':
+			return Iface{t: types.Typ[types.Float64], v: j.f}
+		case 's':
+			return Iface{t: types.Typ[types.String], v: j.s}
+		case 'a':
+			out := make([]Value, len(j.arr))
+			for i, e := range j.arr {
+				out[i] = in.decodeInto(e, tEmptyIface, Iface{}, errp)
+			}
+			return Iface{t: tSliceI, v: Slice{v: out}}
+		case 'o':
+			m := &MapObj{}
+			for i, k := range j.keys {
+				m.ents = append(m.ents, &mapEnt{k: in.strConst(k), v: in.decodeInto(j.vals[i], tEmptyIface, Iface{}, errp)})
+			}
+			return Iface{t: tMapSI, v: MapRef{m: m}}
+		}
+	case *types.Basic:
+		if j.kind == 'n' {
+			return cur
+		}
+		switch {
+		case u.Info()&types.IsBoolean != 0:
+			if j.kind == 'b' {
+				return j.b
+			}
+		case u.Info()&types.IsString != 0:
+			if j.kind == 's' {
+				return j.s
+			}
+		case u.Info()&types.IsFloat != 0:
+			if j.kind == 'f' {
+				return j.f
+			}
+		case u.Info()&types.IsInteger != 0:
+			if j.kind == 'f' {
+				if j.f.IsConst() {
+					f := fpc(j.f)
+					if f == math.Trunc(f) && math.Abs(f) < 1e15 {
+						return tt.BV(intWidth(u), uint64(int64(f)))
+					}
+					typeErr("number " + strconv.FormatFloat(f, 'g', -1, 64))
+					return cur
+				}
+				if i, ok := fpExactInt(j.f); ok {
+					return tt.Extract(intWidth(u)-1, 0, i)
+				}
+				panic(unsupported("json.Unmarshal of symbolic number into integer"))
+			}
+		}
+		typeErr(jname)
+		return cur
+	case *types.Slice:
+		if j.kind == 'n' {
+			return Slice{}
+		}
+		if j.kind != 'a' {
+			typeErr(jname)
+			return cur
+		}
+		out := make([]Value, len(j.arr))
+		for i, e := range j.arr {
+			out[i] = in.decodeInto(e, u.Elem(), in.zero(u.Elem()), errp)
+		}
+		return Slice{v: out}
+	case *types.Map:
+		if j.kind == 'n' {
+			return MapRef{}
+		}
+		if j.kind != 'o' {
+			typeErr(jname)
+			return cur
+		}
+		m := &MapObj{}
+		if cm, ok := cur.(MapRef); ok && cm.m != nil {
+			m = cm.m
+		}
+		for i, k := range j.keys {
+			in.mapSet(m, in.strConst(k), in.decodeInto(j.vals[i], u.Elem(), in.zero(u.Elem()), errp))
+		}
+		return MapRef{m: m}
+	case *types.Struct:
+		if j.kind == 'n' {
+			return cur
+		}
+		if j.kind != 'o' {
+			typeErr(jname)
+			return cur
+		}
+		st := copyVal(cur).(Struct)
+		for i, k := range j.keys {
+			fi := -1
+			// exact match first, then case-insensitive (encoding/json's rule)
+			for pass := 0; pass < 2 && fi < 0; pass++ {
+				for f := 0; f < u.NumFields(); f++ {
+					fld := u.Field(f)
+					if !fld.Exported() {
+						continue
+					}
+					name := fld.Name()
+					if tag := reflect.StructTag(u.Tag(f)).Get("json"); tag != "" && tag != "-" {
+						if p := strings.Split(tag, ",")[0]; p != "" {
+							name = p
+						}
+					}
+					if pass == 0 && name == k || pass == 1 && strings.EqualFold(name, k) {
+						fi = f
+						break
+					}
+				}
+			}
+			if fi < 0 {
+				continue
+			}
+			st[fi] = in.decodeInto(j.vals[i], u.Field(fi).Type(), st[fi], errp)
+		}
+		return st
+	case *types.Pointer:
+		if j.kind == 'n' {
+			return Ptr{}
+		}
+		p, _ := cur.(Ptr)
+		if p.p == nil {
+			p.p = new(Value)
+			*p.p = in.zero(u.Elem())
+		}
+		*p.p = in.decodeInto(j, u.Elem(), *p.p, errp)
+		return p
+	}
+	panic(unsupported("json.Unmarshal into " + typeString(t)))
+}
+
+// ---------- rope equality ----------
+
+func (in *Interp) jvalEq(a, b *JVal) *Term {
+	tt := in.tt
+	if a.kind != b.kind {
+		return tt.F
+	}
+	switch a.kind {
+	case 'n':
+		return tt.T
+	case 'b':
+		return tt.Eq(a.b, b.b)
+	case 'f':
+		// texts are equal iff the values are the same float (incl. sign of zero)
+		if ia, ok := fpExactInt(a.f); ok {
+			if ib, ok := fpExactInt(b.f); ok {
+				return tt.Eq(ia, ib)
+			}
+		}
+		ba, oka := fpBits(tt, a.f)
+		bb, okb := fpBits(tt, b.f)
+		if oka && okb {
+			return tt.Eq(ba, bb)
+		}
+		return tt.FpSame(a.f, b.f)
+	case 's':
+		return in.strEq(a.s, b.s)
+	case 'a':
+		if len(a.arr) != len(b.arr) {
+			return tt.F
+		}
+		cs := make([]*Term, len(a.arr))
+		for i := range a.arr {
+			cs[i] = in.jvalEq(a.arr[i], b.arr[i])
+		}
+		return tt.And(cs...)
+	case 'o':
+		if len(a.keys) != len(b.keys) {
+			return tt.F
+		}
+		cs := make([]*Term, len(a.keys))
+		for i := range a.keys {
+			if a.keys[i] != b.keys[i] {
+				return tt.F
+			}
+			cs[i] = in.jvalEq(a.vals[i], b.vals[i])
+		}
+		return tt.And(cs...)
+	}
+	return tt.F
+}
+
+func (in *Interp) ropeEq(x, y Str) *Term {
+	tt := in.tt
+	xs, ys := x.elems, y.elems
+	var cs []*Term
+	for len(xs) > 0 || len(ys) > 0 {
+		if len(xs) == 0 || len(ys) == 0 {
+			return tt.F
+		}
+		ex, ey := xs[0], ys[0]
+		switch {
+		case ex.tok == nil && ey.tok == nil:
+			cs = append(cs, tt.Eq(ex.b, ey.b))
+			xs, ys = xs[1:], ys[1:]
+		case ex.tok != nil && ey.tok != nil:
+			if ex.tok.yaml != ey.tok.yaml {
+				panic(unsupported("comparing JSON token with YAML token"))
+			}
+			cs = append(cs, in.jvalEq(ex.tok.val, ey.tok.val))
+			xs, ys = xs[1:], ys[1:]
+		default:
+			// token on one side, bytes on the other: decode the bytes' first JSON value
+			tokSide, byteSide := xs, ys
+			if ex.tok == nil {
+				tokSide, byteSide = ys, xs
+			}
+			if tokSide[0].tok.yaml {
+				panic(unsupported("comparing YAML token with bytes"))
+			}
+			var run []byte
+			for _, e := range byteSide {
+				if e.tok != nil || !e.b.IsConst() {
+					break
+				}
+				run = append(run, byte(e.b.val))
+			}
+			dec := json.NewDecoder(bytes.NewReader(run))
+			var v interface{}
+			if err := dec.Decode(&v); err != nil {
+				return tt.F
+			}
+			off := int(dec.InputOffset())
+			// the decoder skips leading blanks; a token has none
+			if len(run) > 0 && (run[0] == ' ' || run[0] == '\n' || run[0] == '\t' || run[0] == '\r') {
+				return tt.F
+			}
+			cs = append(cs, in.jvalEq(tokSide[0].tok.val, in.jvalOfNative(v)))
+			if ex.tok != nil {
+				xs, ys = xs[1:], ys[off:]
+			} else {
+				xs, ys = xs[off:], ys[1:]
+			}
+		}
+	}
+	return tt.And(cs...)
+}
+
+// ---------- models ----------
+
+func (e *Engine) registerCodecModels() {
+	m := e.models
+	m["encoding/json.Marshal"] = func(in *Interp, fn *ssa.Function, a []Value) (res Value) {
+		defer func() {
+			if r := recover(); r != nil {
+				if me, ok := r.(marshalErr); ok {
+					res = Tuple{Slice{}, in.newError(in.strConst("json: " + me.msg))}
+					return
+				}
+				panic(r)
+			}
+		}()
+		v := a[0].(Iface)
+		var j *JVal
+		if v.t == nil {
+			j = &JVal{kind: 'n'}
+		} else {
+			j = in.jvalOf(v.v, v.t)
+		}
+		s := in.strOfJ(j)
+		return Tuple{bytesOfElems(s.elems), Iface{}}
+	}
+	m["encoding/json.Unmarshal"] = func(in *Interp, fn *ssa.Function, a []Value) Value {
+		data := Str{elems: elemsOfBytes(a[0].(Slice))}
+		dst := a[1].(Iface)
+		j, perr := in.parseRopeErr(data)
+		if perr != "" {
+			return in.newError(in.strConst(perr))
+		}
+		pt, ok := dst.t.Underlying().(*types.Pointer)
+		if !ok || dst.v.(Ptr).p == nil {
+			return in.newError(in.strConst("json: Unmarshal(non-pointer)"))
+		}
+		p := dst.v.(Ptr)
+		errs := ""
+		*p.p = in.decodeInto(j, pt.Elem(), *p.p, &errs)
+		if errs != "" {
+			return in.newError(in.strConst(errs))
+		}
+		return Iface{}
+	}
+	e.registerYamlModels()
+}
 
 // renderObs renders an observed value as text under a model.
 func (in *Interp) renderObs(v Value, m Model) string {
@@ -60,7 +757,7 @@ func (in *Interp) renderObs(v Value, m Model) string {
 		case SortBool:
 			return strconv.FormatBool(x == 1)
 		case SortFP:
-			return strconv.FormatFloat(math.Float64frombits(x), 'g', -1, 64)
+			return fmt.Sprint(math.Float64frombits(x))
 		default:
 			sh := uint(64 - v.w)
 			return strconv.FormatInt(int64(x<<sh)>>sh, 10)
@@ -78,8 +775,4 @@ func (in *Interp) renderObs(v Value, m Model) string {
 		return string(b)
 	}
 	return fmt.Sprintf("<%T>", v)
-}
-
-func (in *Interp) renderTok(t *Tok, m Model) string {
-	return "<tok>"
 }
